@@ -62,6 +62,9 @@ func quietLogger() *logrus.Logger {
 }
 
 type kvRun struct {
+	hotA   int
+	hotK   string
+	hotSet bool
 	prop   string
 	cfg    kvCfg
 	dir    string
@@ -210,6 +213,48 @@ func (kr *kvRun) check(full bool, ctx string) {
 	}
 }
 
+// cacheVsStore: right after a commit nothing is dirty, so what the running ledger answers (from its
+// account cache) and what a cache-less ledger over the same store answers must be the same thing,
+// found-flag included - "no matter whether that value currently lives in the cache or the database".
+// This does not depend on how the implementation represents empty values.
+func (kr *kvRun) cacheVsStore(ctx string) {
+	kr.view.Clear()
+	for a := 0; a < 3; a++ {
+		addr := kvAddr(a)
+		for _, k := range kvKeys {
+			ok1, v1 := kr.sl.GetState(addr, []byte(k))
+			ok2, v2 := kr.view.GetState(addr, []byte(k))
+			kr.stats["obs_cache_vs_store_reads"]++
+			if ok1 != ok2 || !bytes.Equal(v1, v2) {
+				kr.violation("read:cache-and-store-disagree", fmt.Sprintf("%s: account %d key %q reads (%v,%s) on the running ledger and (%v,%s) from the store", ctx, a, k, ok1, show(v1), ok2, show(v2)))
+			}
+		}
+		for _, p := range kvPrefixes {
+			ok1, q1 := kr.sl.QueryByPrefix(addr, p)
+			ok2, q2 := kr.view.QueryByPrefix(addr, p)
+			same := ok1 == ok2 && len(q1) == len(q2)
+			for i := 0; same && i < len(q1); i++ {
+				same = bytes.Equal(q1[i], q2[i])
+			}
+			if !same {
+				kr.violation("query:cache-and-store-disagree", fmt.Sprintf("%s: account %d prefix %q returns %s on the running ledger and %s from the store", ctx, a, p, showList(q1), showList(q2)))
+			}
+		}
+		if b1, b2 := kr.sl.GetBalance(addr), kr.view.GetBalance(addr); b1.Cmp(b2) != 0 {
+			kr.violation("read:cache-and-store-disagree", fmt.Sprintf("%s: account %d balance %v on the running ledger, %v from the store", ctx, a, b1, b2))
+		}
+		if n1, n2 := kr.sl.GetNonce(addr), kr.view.GetNonce(addr); n1 != n2 {
+			kr.violation("read:cache-and-store-disagree", fmt.Sprintf("%s: account %d nonce %d on the running ledger, %d from the store", ctx, a, n1, n2))
+		}
+		if c1, c2 := kr.sl.GetCode(addr), kr.view.GetCode(addr); !bytes.Equal(c1, c2) {
+			kr.violation("read:cache-and-store-disagree", fmt.Sprintf("%s: account %d code %q on the running ledger, %q from the store", ctx, a, c1, c2))
+		}
+	}
+	kr.view.Clear()
+	// the reads above may have created (unchanged) dirty accounts on the running ledger
+	kr.sl.Clear()
+}
+
 func nonEmpty(vs [][]byte) [][]byte {
 	var out [][]byte
 	for _, v := range vs {
@@ -278,6 +323,9 @@ func (kr *kvRun) apply(op kvOp) {
 		kr.h++
 		if err := kr.sl.Commit(kr.h, accts, root); err != nil {
 			kr.violation("commit:error", err.Error())
+		}
+		if kr.prop == "C13" {
+			kr.cacheVsStore(fmt.Sprintf("after commit of block %d", kr.h))
 		}
 		kr.byH[kr.h] = kr.m.Clone()
 		kr.rootAt[kr.h] = root.String()
@@ -440,6 +488,12 @@ func (kr *kvRun) gen(r *rand.Rand, ctr *int, useAdd bool) kvOp {
 	x := r.Intn(100)
 	a := r.Intn(3)
 	k := kvKeys[r.Intn(len(kvKeys))]
+	// locality: multi-step patterns on one slot (delete, snapshot, rewrite, revert ...) are what the journal
+	// and the caches get wrong, uniform choice over 21 slots almost never produces them
+	if kr.hotSet && r.Intn(100) < 45 {
+		a, k = kr.hotA, kr.hotK
+	}
+	kr.hotA, kr.hotK, kr.hotSet = a, k, true
 	newVal := func() string {
 		switch r.Intn(8) {
 		case 0:
